@@ -61,8 +61,11 @@ let do_bool id t =
       match first_bad (bool_verdict op ga gb r) good with
       | None -> ()
       | Some (p, code) ->
-          set (Printf.sprintf "%s %s at %s: inA=%b inB=%b inResult=%b sum_wn=%s" name (why (int_of_z code)) (pt p)
-                 (covers ga p) (covers gb p) (covers r p) (hex_of_z (wn_sum r p)))) ops;
+          (* a returned polygon with negative orientation is a hole contour that Clipper handed back as a contour of its own *)
+          let neg = List.exists (fun q -> match shoelace2 q with Zneg _ -> true | _ -> false) r in
+          set (Printf.sprintf "%s %s at %s: inA=%b inB=%b inResult=%b sum_wn=%s%s" name (why (int_of_z code)) (pt p)
+                 (covers ga p) (covers gb p) (covers r p) (hex_of_z (wn_sum r p))
+                 (if neg && covers r p then " [negatively-oriented-output]" else ""))) ops;
   (* merges used for area(A), area(B): their regions must be those of A and B *)
   List.iter (fun (name, gsrc, r) ->
       match first_bad (bool_verdict OpOr gsrc [] r) good with
